@@ -158,6 +158,66 @@ def write_replay(prop, seed, rec):
     return os.path.relpath(path, VERIF)
 
 
+def anchor_coverage(prop, plan, seed, tmpdir):
+    """Evidence of reach (not a verdict): line/function coverage of the property's anchored files under
+    a slice of its own workload, from an -Cinstrument-coverage build of the harness."""
+    try:
+        anchors = []
+        for line in open(os.path.join(VERIF, "properties.jsonl")):
+            d = json.loads(line)
+            if d["id"] == prop:
+                anchors = d["anchors"]["files"]
+        prof, cov = engines.llvm_tool("llvm-profdata"), engines.llvm_tool("llvm-cov")
+        if not anchors or not prof or not cov:
+            return dict(note="coverage tools or anchors not available")
+        ok, dt, msg = engines.build("cov", log)
+        if not ok:
+            return dict(note="coverage build failed: " + msg[-300:])
+        cdir = os.path.join(tmpdir, "cov")
+        os.makedirs(cdir, exist_ok=True)
+        # one slice per distinct parameter set of the native jobs
+        seen, procs, ran = set(), [], 0
+        for j in plan["jobs"]:
+            if j["engine"] not in ("rel", "chk"):
+                continue
+            key = json.dumps({k: v for k, v in j.get("params", {}).items() if k != "delay"}, sort_keys=True)
+            if key in seen:
+                continue
+            seen.add(key)
+            lo = j.get("lo", 0)
+            hi = min(j["hi"], lo + 6000)
+            args = [prop, "--seed", str(seed), "--lo", str(lo), "--hi", str(hi)]
+            for k, v in sorted(j.get("params", {}).items()):
+                args += ["-p", f"{k}={v}"]
+            argv, env = engines.command("cov", args)
+            env["LLVM_PROFILE_FILE"] = os.path.join(cdir, "c-%p.profraw")
+            procs.append(subprocess.Popen(argv, cwd=engines.HARNESS, env=env, stdout=subprocess.DEVNULL, stderr=subprocess.DEVNULL))
+            ran += hi - lo
+        for p in procs:
+            try:
+                p.wait(timeout=900)
+            except subprocess.TimeoutExpired:
+                p.kill()
+        raws = [os.path.join(cdir, f) for f in os.listdir(cdir) if f.endswith(".profraw")]
+        if not raws:
+            return dict(note="no coverage profile was written")
+        merged = os.path.join(cdir, "m.profdata")
+        subprocess.run([prof, "merge", "-sparse"] + raws + ["-o", merged], check=True, stdout=subprocess.DEVNULL, stderr=subprocess.DEVNULL)
+        out = subprocess.run([cov, "export", "-summary-only", f"-instr-profile={merged}", engines.ENGINES["cov"]["bin"]], stdout=subprocess.PIPE, stderr=subprocess.DEVNULL, text=True)
+        data = json.loads(out.stdout)
+        files = {}
+        for f in data["data"][0]["files"]:
+            for a in anchors:
+                if f["filename"].endswith("/" + a):
+                    s = f["summary"]
+                    files[a] = dict(lines=s["lines"]["count"], lines_covered=s["lines"]["covered"], lines_percent=round(s["lines"]["percent"], 1),
+                                    functions=s["functions"]["count"], functions_covered=s["functions"]["covered"])
+        return dict(cases_run_for_coverage=ran, files=files,
+                    note="whole-file figures: an anchored file also contains code that belongs to other properties")
+    except Exception as e:  # never affects the verdict
+        return dict(note=f"coverage step failed: {type(e).__name__}: {e}")
+
+
 def run_check(prop, tier, seed):
     t0 = time.time()
     plan = plans.plan(prop, tier)
@@ -206,10 +266,13 @@ def run_check(prop, tier, seed):
                 for g in futs:
                     g.cancel()
                 break
-    return finish(prop, tier, seed, plan, done, inconclusive, t0, tmpdir)
+    cov = None
+    if tier == "thorough" or os.environ.get("VERIF_COV") == "1":
+        cov = anchor_coverage(prop, plan, seed, tmpdir)
+    return finish(prop, tier, seed, plan, done, inconclusive, t0, tmpdir, cov)
 
 
-def finish(prop, tier, seed, plan, shards, inconclusive, t0, tmpdir):
+def finish(prop, tier, seed, plan, shards, inconclusive, t0, tmpdir, cov=None):
     known = [k for k in load_known() if k["property"] == prop]
     viols, known_seen, harness_errors = [], {}, []
     per_engine = {}
@@ -327,6 +390,7 @@ def finish(prop, tier, seed, plan, shards, inconclusive, t0, tmpdir):
             violation_kinds=[dict(kind=k, engine=e, count=c, replay=p) for (k, e, c, p, _) in replay_paths],
             inconclusive=inconclusive,
             what=plan.get("what", ""),
+            **({"anchor_coverage": cov} if cov else {}),
         ),
         assumptions=plan.get("assumptions", []),
         wall_s=wall,
